@@ -254,6 +254,7 @@ def execute(spec):
             trace.append(op)
         elif k == 'cc':
             PP.pretty_dispatch._clear_cache()
+            bump('dispatch_cache_cleared')
             trace.append(op)
         elif k in ('print', 'abort'):
             if not nodes:
@@ -338,5 +339,5 @@ def shrinkers(spec):
 def extra_evidence(st):
     return dict(enumerated_graph_specs={t: enum_count(t) for t in ('quick', 'thorough')},
                 fault_kinds={'print aborted by KeyboardInterrupt in a printer': st.counters.get('aborted_prints', 0),
-                             'dispatch cache cleared (buggify)': 0},
+                             'dispatch cache cleared (buggify)': st.counters.get('dispatch_cache_cleared', 0)},
                 simulated_time='operations applied (field simulated_steps)')
